@@ -101,6 +101,46 @@ theorem partial_give_back_is_exact {s : Streams} (h : SafeInv s) {id n : Nat} {s
     SafeInv (giveBack s id n) :=
   giveBack_exact h hget hn
 
+/-- **… when the stream is reset by the user**: after `StreamRef::send_reset` the stream (every slab
+    entry with its store key) holds no send capacity, is not send-streaming and has nothing buffered —
+    so `try_assign_capacity` cannot hand it anything again (`KeyP id ColdSt`).  What it held went
+    through `giveBack` (`unused_capacity_returns_exactly`).  Hypotheses: the stream was not reset
+    already and was not closed-and-flushed (in those cases `send_reset` does nothing). -/
+theorem reset_stream_holds_no_capacity {s : Streams} (h : SafeInv s) (id : Nat) (r : Reason)
+    (hnr : (s.stream id).state.isReset = false)
+    (hne : ((s.stream id).state.isClosed &&
+      ((s.stream id).pendingSend.isEmpty && (s.stream id).bufferedSendData == 0)) = false) :
+    KeyP id ColdSt (s.refSendReset id r) :=
+  refSendReset_cold h id r hnr hne
+
+/-- **… when the peer resets it**: after an accepted RST_STREAM (`Inner::recv_reset`) the stream holds
+    no send capacity and cannot get any. -/
+theorem peer_reset_stream_holds_no_capacity {s : Streams} (h : SafeInv s) {id k : Nat} (reason : Reason)
+    (hid : id ≠ 0) (hmax : ¬ id > s.recv.maxStreamId) (hfind : s.store.findKey? id = some k)
+    (hpo : (s.stream k).isPendingOpen = false) (hok : (s.recvRecvReset k reason).2 = .ok ()) :
+    KeyP k ColdSt (s.recvReset id reason).1 :=
+  recvReset_cold h reason hid hmax hfind hpo hok
+
+/-- **… when its handles are dropped or the request is lowered**: `reclaim_reserved_capacity` gives
+    back exactly `available − buffered`, a lowered `reserve_capacity` exactly `available − (request +
+    buffered)`, both through `giveBack` (exact by `partial_give_back_is_exact`) followed by
+    `assign_connection_capacity`'s loop. -/
+theorem dropped_or_lowered_capacity_returns_exactly {s : Streams} (h : SafeInv s) {id c : Nat} {st : Stream}
+    (hget : s.store.get? id = some st) :
+    (st.sendFlow.available.asSize > st.bufferedSendData →
+      s.reclaimReservedCapacity id =
+        Streams.assignConnectionCapacityLoop
+          ((giveBack s id (st.sendFlow.available.asSize - st.bufferedSendData)).prio.pendingCapacity.length + 2)
+          (giveBack s id (st.sendFlow.available.asSize - st.bufferedSendData))) ∧
+    (c + st.bufferedSendData < st.requestedSendCapacity → st.sendFlow.available.asSize > c + st.bufferedSendData →
+      s.reserveCapacity id c =
+        Streams.assignConnectionCapacityLoop
+          ((giveBack (s.modStream id fun x => { x with requestedSendCapacity := usizeAsU32 (c + st.bufferedSendData) }) id
+            (st.sendFlow.available.asSize - (c + st.bufferedSendData))).prio.pendingCapacity.length + 2)
+          (giveBack (s.modStream id fun x => { x with requestedSendCapacity := usizeAsU32 (c + st.bufferedSendData) }) id
+            (st.sendFlow.available.asSize - (c + st.bufferedSendData)))) :=
+  ⟨reclaimReserved_exact h hget, reserveLower_exact h hget⟩
+
 /-- **… and reaches other waiting streams.**  `assign_connection_capacity` stops only when the
     connection has nothing left or no stream waits in `pending_capacity` (the model's fuel is enough
     for that), whatever `inc` octets it was called with. -/
@@ -123,6 +163,15 @@ example : SafeInvG 0 exState ∧ ReqOk exState := by
   · intro x hx; simp [exState] at hx; subst hx
     exact ⟨by decide, by intro _; decide, by decide, by decide⟩
   · intro x hx; simp [exState] at hx; subst hx; decide
+
+/-- the hypotheses of the two reset theorems and of the give-back theorems are met by `exState` -/
+example : (exState.stream 0).state.isReset = false ∧
+    ((exState.stream 0).state.isClosed &&
+      ((exState.stream 0).pendingSend.isEmpty && (exState.stream 0).bufferedSendData == 0)) = false ∧
+    (1 : Nat) ≠ 0 ∧ ¬ (1 > exState.recv.maxStreamId) ∧ exState.store.findKey? 1 = some 0 ∧
+    (exState.stream 0).isPendingOpen = false ∧ (exState.recvRecvReset 0 8).2 = .ok () ∧
+    (∃ st, exState.store.get? 0 = some st ∧ st.sendFlow.available.asSize > 0) := by
+  refine ⟨rfl, rfl, by decide, by decide, rfl, rfl, rfl, ⟨_, rfl, by decide⟩⟩
 
 /-- `ReqOk` is no restriction on reachable states -/
 theorem requested_capacity_is_u32 {s : Streams} (h : Reach s) : ReqOk s := h.reqOk
@@ -166,6 +215,9 @@ end H2V.Props.C16
 #print axioms H2V.Props.C16.reset_wakes_waiter
 #print axioms H2V.Props.C16.unused_capacity_returns_exactly
 #print axioms H2V.Props.C16.partial_give_back_is_exact
+#print axioms H2V.Props.C16.reset_stream_holds_no_capacity
+#print axioms H2V.Props.C16.peer_reset_stream_holds_no_capacity
+#print axioms H2V.Props.C16.dropped_or_lowered_capacity_returns_exactly
 #print axioms H2V.Props.C16.returned_capacity_reaches_waiting_streams
 #print axioms H2V.Props.C16.requested_capacity_is_u32
 #print axioms H2V.Props.C16.assignment_is_exact
